@@ -189,16 +189,23 @@ func (db *DB) search(key types.Key) ([]byte, bool) {
 }
 
 func (db *DB) rawset(entry types.Entry) {
-	db.memtable.set(entry)
+	db.mu.RLock()
+	mt := db.memtable
+	db.mu.RUnlock()
 
-	if db.memtable.size() >= db.config.MemtableByteThreshold {
-		db.memtable.freeze()
-		imt := db.memtable
+	mt.set(entry)
+
+	if mt.size() >= db.config.MemtableByteThreshold {
+		mt.freeze()
+		imt := mt
 
 		db.flushC <- imt
-		db.immutables.PushBack(imt)
 
-		db.memtable = db.memtable.reset()
+		// readers and the flush goroutine access memtable and immutables with db.mu held
+		db.mu.Lock()
+		db.immutables.PushBack(imt)
+		db.memtable = mt.reset()
+		db.mu.Unlock()
 	}
 }
 
